@@ -24,7 +24,7 @@ func init() {
 		Run:  runC26,
 		Race: true,
 		Quick: 2400, Thor: 150000, QuickWallS: 45,
-		Rule: "a world = one UConn shared by 1-3 Handshake/HandshakeContext callers (each context may be cancelled at a drawn scheduler step, before or after its call returned), a reader, a writer, optionally a closer (Close/CloseWrite at a drawn step) and optionally a transport fault; a quarter of the TLS 1.3 worlds use the reference server, which sends KeyUpdate(update_requested) between its echo writes; every mutex acquisition, atomic operation and transport operation is a scheduling point; non-trivial = >=2 client tasks overlapped (one was granted between another's invoke and return); distinct = (task set, parrot, peer, fault kind, schedule hash)",
+		Rule: "a world = one UConn shared by 1-3 Handshake/HandshakeContext callers (each context may be cancelled at a drawn scheduler step, before or after its call returned), a reader, a writer, optionally a closer (Close/CloseWrite at a drawn step) and optionally a transport fault; a quarter of the TLS 1.3 worlds use the reference server, which sends KeyUpdate(update_requested) between its echo writes; 40% of the TLS 1.2 worlds use the reference server, which sends a HelloRequest after its handshake or between its echo writes (client renegotiation support drawn: never/once/freely) - the renegotiation then fails, only safety is asserted; every mutex acquisition, atomic operation and transport operation is a scheduling point; non-trivial = >=2 client tasks overlapped (one was granted between another's invoke and return); distinct = (task set, parrot, peer, fault kind, schedule hash)",
 		Assumptions: []string{
 			"the race detector sees only program synchronisation because scheduler hand-off uses a no-op-Locker sync.Cond and //go:norace state (DESIGN 2.7); races that need true parallelism inside one library call are outside the simulator",
 			"'every call returns within the I/O deadline' is checked against the 20 s connection deadline the scenario sets plus the library's own 5 s close_notify allowance",
@@ -158,7 +158,31 @@ func runC26(c *Ctx) {
 		rcfg = refCfg("ecdsa")
 		kuEvery = 1 + ch.Pick(2, "ku-every")
 	}
+	// 40% of the TLS 1.2 worlds: the reference server sends a HelloRequest (right after its handshake
+	// or before one of its echo writes), so the reader starts a renegotiation - rebuilding the hello
+	// and taking the handshake mutex - while the other tasks are in Write / Handshake / Close. No Go
+	// server implements renegotiation, so the connection then ends with an error: only the safety
+	// clauses (no race, no deadlock, every call returns, never wrong data) are asserted there.
+	helloReqAt := -2
+	if tls12 && ch.Bool(40, "hello-request") {
+		peer = PeerRef
+		rcfg = refCfg("ecdsa")
+		rcfg.MaxVersion = refsrv.VersionTLS12
+		helloReqAt = ch.Pick(3, "hello-request-at") - 1
+		ccfg.Renegotiation = []tls.RenegotiationSupport{tls.RenegotiateNever, tls.RenegotiateOnceAsClient, tls.RenegotiateFreelyAsClient}[ch.Pick(3, "client-reneg")]
+		disrupt = true
+	}
 	o := &ConnOutcome{Spec: &ConnSpec{ID: idi.ID, Peer: peer, SCfg: scfg, StdCfg: stdcfg, RefCfg: rcfg, Deadline: 60 * time.Second, ServerStall: serverStall}, Link: l}
+	if helloReqAt >= -1 {
+		sent := false
+		o.Spec.ServerHelloRequest = func(n int) bool {
+			if !sent && n >= helloReqAt {
+				sent = true
+				return true
+			}
+			return false
+		}
+	}
 	if kuEvery > 0 {
 		o.Spec.ServerKeyUpdate = func(n int) (bool, bool) { return n%kuEvery == 0, true }
 	}
@@ -310,12 +334,15 @@ func runC26(c *Ctx) {
 		}
 	}
 	sort.Strings(names)
-	c.R.Class = fmt.Sprintf("%s/%s/tls12=%v %v fault=%d ly=%v ay=%v nodl=%v stall=%v", idi.Name, peerName(peer), tls12, names, fault, lockYield, atomYield, noDeadline, serverStall)
+	c.R.Class = fmt.Sprintf("%s/%s/tls12=%v %v fault=%d ly=%v ay=%v nodl=%v stall=%v helloreq=%d", idi.Name, peerName(peer), tls12, names, fault, lockYield, atomYield, noDeadline, serverStall, helloReqAt)
 	if serverStall > 0 {
 		c.Fault("server-stall", 1)
 	}
 	if o.KeyUpdates > 0 {
 		c.Fault("key-update", o.KeyUpdates)
+	}
+	if o.HelloRequests > 0 {
+		c.Fault("hello-request", o.HelloRequests)
 	}
 	c.R.NonTrivial = len(phase1) >= 2 && w.Overlaps > 0
 	if c.R.Run%400 == 0 {
@@ -365,6 +392,9 @@ func runC26(c *Ctx) {
 				c.Violate("ctx-error-but-connection-open", "caller %d returned %v but the transport was never closed", i, hc.err)
 			}
 			continue
+		}
+		if H && o.HelloRequests > 0 {
+			continue // a caller that arrived during or after the failed renegotiation reports its outcome
 		}
 		if H {
 			// the handshake completed, so every caller not reporting its own context error must
